@@ -156,3 +156,24 @@ Fixpoint tops_pre_b (st : tstate) (ops : list top) : bool :=
   end.
 
 End TH.
+
+(** * The instance the driver replays (ocaml/tddh.ml): unbounded association-list cache that
+    starts empty, operands never swapped; the state is seeded with the lifted snapshot of the
+    real manager taken before the call.  One function per call, under names of their own (the
+    flat extraction of Extract/ExDD.v renames clashing identifiers). *)
+Definition tddh_step (s : snap) (o : top) : option snap :=
+  match tstep (fun _ _ => false) acache ac_get ac_add [] (mkT acache s []) o with
+  | Some st => Some (t_s acache st)
+  | None => None
+  end.
+
+Definition tddh_const (s : snap) (d : N) (v : tri) := tddh_step s (TConst d v).
+Definition tddh_var (s : snap) (d : N) (v : nat) := tddh_step s (TVar d v).
+Definition tddh_not (s : snap) (d a : N) := tddh_step s (TNot d a).
+Definition tddh_bin (s : snap) (o : binop) (d a b : N) := tddh_step s (TBin o d a b).
+Definition tddh_ite (s : snap) (d a b c : N) := tddh_step s (TIte d a b c).
+Definition tddh_cof (s : snap) (dt du de a : N) := tddh_step s (TCof dt du de a).
+Definition tddh_clone (s : snap) (d a : N) := tddh_step s (TClone d a).
+Definition tddh_drop (s : snap) (a : N) := tddh_step s (TDrop a).
+Definition tddh_gc (s : snap) := tddh_step s TGc.
+Definition tddh_addvars (s : snap) (k : nat) := tddh_step s (TAddVars k).
